@@ -141,7 +141,7 @@ def omen_models(draw, max_ngram=3, alpha_max=3):
 
 @st.composite
 def rulesets(draw, max_pt=600, markov='maybe', prince=False, max_structs=4, normalised=False,
-             tied_levels=False, families=None):
+             tied_levels=False, families=None, rich_levels=False):
     """A synthetic well-formed ruleset model (see rsmodel)."""
     family = draw(st.sampled_from(families or FAMILIES))
     nv = draw(st.integers(1, 5))
@@ -199,7 +199,20 @@ def rulesets(draw, max_pt=600, markov='maybe', prince=False, max_structs=4, norm
         om = draw(omen_models())
         m['omen'] = om
         nl = draw(st.integers(1, 3))
-        lvls = draw(st.lists(st.integers(0, 6), min_size=nl, max_size=nl, unique=True))
+        if rich_levels:
+            # construct (not filter): only levels that really contain 2..40 strings under the reference enumerator
+            from . import omen_ref
+            ref = omen_ref.from_model_dict(om)
+            good = [l for l in range(0, 9) if 2 <= omen_ref.count_level(ref, l) <= 40]
+            if not good:
+                om = {'ngram': 2, 'alphabet': ['a', 'b'], 'ip': [[0, 'a'], [1, 'b']], 'ep': [[0, 'a'], [1, 'b']],
+                      'cp': [[0, 'aa'], [1, 'ab'], [0, 'ba'], [1, 'bb']], 'ln': [10, 0, 1] + [10] * 18}
+                m['omen'] = om
+                good = [1, 2]
+            nl = min(nl, len(good))
+            lvls = draw(st.lists(st.sampled_from(good), min_size=nl, max_size=nl, unique=True))
+        else:
+            lvls = draw(st.lists(st.integers(0, 6), min_size=nl, max_size=nl, unique=True))
         if tied_levels:
             p = draw(probs('dyadic'))
             ps = [p] * nl
